@@ -3,7 +3,7 @@
 
    Main results
      droppable_pure   : a droppable expression has an empty log and is a value, or fails with
-                        EArith / EStuck; it never needs fuel.
+                        EArith / EStuck (or runs out of fuel where a recursive value is unfolded).
      valid_opt_sound  : valid_opt a b = true -> for every fuel n and related environments,
                         the outcome of b is related ([rrel]) to that of a: same value (up to
                         [vrel]: closures carry optimised code), same error, same log -- except
@@ -332,6 +332,8 @@ Variable fcmp : primop -> Z -> Z -> bool.
 Notation ev := (Core.ev fop fcmp).
 Notation evl := (Core.evl fop fcmp).
 Notation eva := (Core.eva fop fcmp).
+Notation evm := (Core.evm fop fcmp).
+Notation force := (Core.force fop fcmp).
 Notation apply := (Core.apply fop fcmp).
 Notation eval := (Core.eval fop fcmp).
 Notation prim_sem := (Core.prim_sem fop fcmp).
@@ -339,11 +341,11 @@ Notation prim_apply := (Core.prim_apply fop fcmp).
 Notation match_pat := (Core.match_pat fcmp).
 Notation lit_matches := (Core.lit_matches fcmp).
 
-Lemma ev_call : forall ap r f args,
-  ev ap r (Call f args) =
+Lemma ev_call : forall ap fr r f args,
+  ev ap fr r (Call f args) =
   match prim_view f args with
-  | Some (p, a, b) => prim_sem p (ev ap r a) (fun _ => ev ap r b)
-  | None => bind (ev ap r f) (fun vf => bind (evl ap r args) (fun vs => ap vf vs))
+  | Some (p, a, b) => prim_sem p (ev ap fr r a) (fun _ => ev ap fr r b)
+  | None => bind (ev ap fr r f) (fun vf => bind (evl ap fr r args) (fun vs => ap vf vs))
   end.
 Proof.
   intros. destruct f; try reflexivity.
@@ -351,35 +353,41 @@ Proof.
 Qed.
 
 (* unfolding equations (cbn does not fold the sibling functions of a mutual fixpoint back) *)
-Lemma ev_const : forall ap r l, ev ap r (Const l) = ret (lit_value l). Proof. reflexivity. Qed.
-Lemma ev_ident : forall ap r x, ev ap r (Ident x) = match lookup x r with Some v => ret v | None => stuck end.
+Lemma ev_const : forall ap fr r l, ev ap fr r (Const l) = ret (lit_value l). Proof. reflexivity. Qed.
+Lemma ev_ident : forall ap fr r x, ev ap fr r (Ident x) = match lookup x r with Some v => ret v | None => stuck end.
 Proof. reflexivity. Qed.
-Lemma ev_prim : forall ap r p, ev ap r (Prim p) = stuck. Proof. reflexivity. Qed.
-Lemma ev_data : forall ap r c args, ev ap r (Data c args) = bind (evl ap r args) (fun vs => ret (VData c vs)).
+Lemma ev_prim : forall ap fr r p, ev ap fr r (Prim p) = stuck. Proof. reflexivity. Qed.
+Lemma ev_data : forall ap fr r c args, ev ap fr r (Data c args) = bind (evl ap fr r args) (fun vs => ret (VData c vs)).
 Proof. reflexivity. Qed.
-Lemma ev_rec : forall ap r ns args, ev ap r (Rec ns args) =
-  bind (evl ap r args) (fun vs => if Nat.eqb (length ns) (length vs) then ret (VRec (combine ns vs)) else stuck).
+Lemma ev_rec : forall ap fr r ns args, ev ap fr r (Rec ns args) =
+  bind (evl ap fr r args) (fun vs => if Nat.eqb (length ns) (length vs) then ret (VRec (combine ns vs)) else stuck).
 Proof. reflexivity. Qed.
-Lemma ev_let : forall ap r x rhs body, ev ap r (Let x rhs body) = bind (ev ap r rhs) (fun v => ev ap ((x, v) :: r) body).
+Lemma ev_let : forall ap fr r x rhs body, ev ap fr r (Let x rhs body) = bind (ev ap fr r rhs) (fun v => ev ap fr ((x, v) :: r) body).
 Proof. reflexivity. Qed.
-Lemma ev_letrec : forall ap r cs body, ev ap r (LetRec cs body) =
-  if has_value_member cs then stuck else ev ap (bind_group r cs) body.
+Lemma ev_letrec : forall ap fr r cs body, ev ap fr r (LetRec cs body) =
+  bind (evm ap fr (bind_group r cs) cs) (fun _ => ev ap fr (bind_group r cs) body).
 Proof. reflexivity. Qed.
-Lemma ev_match : forall ap r s alts, ev ap r (Match s alts) = bind (ev ap r s) (fun v => eva ap r v alts).
+Lemma ev_match : forall ap fr r s alts, ev ap fr r (Match s alts) =
+  bind (ev ap fr r s) (fun v => bind (fr v) (fun w => eva ap fr r w alts)).
 Proof. reflexivity. Qed.
-Lemma ev_cast : forall ap r e, ev ap r (Cast e) = ev ap r e. Proof. reflexivity. Qed.
-Lemma evl_nil : forall ap r, evl ap r ENil = ret []. Proof. reflexivity. Qed.
-Lemma evl_cons : forall ap r e es, evl ap r (ECons e es) =
-  bind (ev ap r e) (fun v => bind (evl ap r es) (fun vs => ret (v :: vs))).
+Lemma evm_nil : forall ap fr r, evm ap fr r CNil = ret tt. Proof. reflexivity. Qed.
+Lemma evm_cons : forall ap fr r f ps body cs, evm ap fr r (CCons f ps body cs) =
+  match ps with [] => bind (ev ap fr r body) (fun _ => evm ap fr r cs) | _ :: _ => evm ap fr r cs end.
 Proof. reflexivity. Qed.
-Lemma eva_nil : forall ap r v, eva ap r v ANil = stuck. Proof. reflexivity. Qed.
-Lemma eva_cons : forall ap r v p e alts, eva ap r v (ACons p e alts) =
-  match match_pat p v with MYes binds => ev ap (binds ++ r) e | MNo => eva ap r v alts | MStuck => stuck end.
+Lemma ev_cast : forall ap fr r e, ev ap fr r (Cast e) = ev ap fr r e. Proof. reflexivity. Qed.
+Lemma evl_nil : forall ap fr r, evl ap fr r ENil = ret []. Proof. reflexivity. Qed.
+Lemma evl_cons : forall ap fr r e es, evl ap fr r (ECons e es) =
+  bind (ev ap fr r e) (fun v => bind (evl ap fr r es) (fun vs => ret (v :: vs))).
+Proof. reflexivity. Qed.
+Lemma eva_nil : forall ap fr r v, eva ap fr r v ANil = stuck. Proof. reflexivity. Qed.
+Lemma eva_cons : forall ap fr r v p e alts, eva ap fr r v (ACons p e alts) =
+  match match_pat p v with MYes binds => ev ap fr (binds ++ r) e | MNo => eva ap fr r v alts | MStuck => stuck end.
 Proof. reflexivity. Qed.
 
-(* no effect, and only the arithmetic (or the "cannot happen") failure; no fuel needed *)
+(* no effect, and only the arithmetic (or the "cannot happen") failure; fuel is only needed where
+   a recursive value is unfolded *)
 Definition pure_out {A : Type} (r : out A * log) : Prop :=
-  snd r = [] /\ match fst r with Val _ => True | Err e => lenient e | OOF => False end.
+  snd r = [] /\ match fst r with Val _ => True | Err e => lenient e | OOF => True end.
 
 Lemma pure_bind : forall (A B : Type) (r : out A * log) (k : A -> out B * log),
   pure_out r -> (forall a, pure_out (k a)) -> pure_out (bind r k).
@@ -387,7 +395,7 @@ Proof.
   intros A B [[a|e|] l] k [Hl Ho] Hk; cbn [snd fst] in *; subst l; cbn [bind].
   - specialize (Hk a). destruct (k a) as [o l']. exact Hk.
   - split; auto.
-  - contradiction.
+  - split; auto.
 Qed.
 
 Lemma pure_ret : forall (A : Type) (a : A), pure_out (ret a).
@@ -396,13 +404,13 @@ Proof. intros. split; cbn; auto. Qed.
 Lemma pure_stuck : forall (A : Type), pure_out (@stuck A).
 Proof. intros. split; cbn; auto. right. reflexivity. Qed.
 
-Lemma chk_int_pure : forall z, match chk_int z with Val _ => True | Err e => lenient e | OOF => False end.
+Lemma chk_int_pure : forall z, match chk_int z with Val _ => True | Err e => lenient e | OOF => True end.
 Proof. intros. unfold chk_int. destruct (in_i64 z); cbn; auto. left. reflexivity. Qed.
-Lemma chk_byte_pure : forall z, match chk_byte z with Val _ => True | Err e => lenient e | OOF => False end.
+Lemma chk_byte_pure : forall z, match chk_byte z with Val _ => True | Err e => lenient e | OOF => True end.
 Proof. intros. unfold chk_byte. destruct (in_u8 z); cbn; auto. left. reflexivity. Qed.
 
 Lemma prim_apply_pure : forall p a b,
-  match prim_apply p a b with Val _ => True | Err e => lenient e | OOF => False end.
+  match prim_apply p a b with Val _ => True | Err e => lenient e | OOF => True end.
 Proof.
   intros. unfold Core.prim_apply.
   assert (Hs : lenient EStuck) by (right; reflexivity).
@@ -412,61 +420,68 @@ Proof.
     match goal with |- context [Z.eqb ?y 0] => destruct (Z.eqb y 0); auto; try apply chk_int_pure; try apply chk_byte_pure end.
 Qed.
 
-Definition dp (e : cexpr) : Prop := forall ap r, droppable e = true -> pure_out (ev ap r e).
+(* [fr] (looking at a value) is pure *)
+Definition fr_pure (fr : value -> res) : Prop := forall v, pure_out (fr v).
+
+Definition dp (e : cexpr) : Prop := forall ap fr r, fr_pure fr -> droppable e = true -> pure_out (ev ap fr r e).
 
 Lemma dp_list : forall args, all_list dp args ->
-  forall ap r, droppable_list args = true -> pure_out (evl ap r args).
+  forall ap fr r, fr_pure fr -> droppable_list args = true -> pure_out (evl ap fr r args).
 Proof.
-  induction args as [|e es IH]; cbn [all_list droppable_list Core.evl]; intros H ap r Hd.
-  - apply pure_ret.
-  - apply andb_true_iff in Hd. destruct Hd as [Hd1 Hd2]. destruct H as [He Hes].
+  induction args as [|e es IH]; cbn [all_list droppable_list]; intros H ap fr r Hfr Hd.
+  - rewrite evl_nil. apply pure_ret.
+  - apply andb_true_iff in Hd. destruct Hd as [Hd1 Hd2]. destruct H as [He Hes]. rewrite evl_cons.
     apply pure_bind; [apply He; auto|]. intros v.
     apply pure_bind; [apply IH; auto|]. intros vs. apply pure_ret.
 Qed.
 
 Lemma dp_alts : forall alts, all_alts dp alts ->
-  forall ap r v, droppable_alts alts = true -> pure_out (eva ap r v alts).
+  forall ap fr r v, fr_pure fr -> droppable_alts alts = true -> pure_out (eva ap fr r v alts).
 Proof.
-  induction alts as [|p e alts IH]; cbn [all_alts droppable_alts Core.eva]; intros H ap r v Hd.
-  - apply pure_stuck.
-  - apply andb_true_iff in Hd. destruct Hd as [Hd1 Hd2]. destruct H as [He Hes].
+  induction alts as [|p e alts IH]; cbn [all_alts droppable_alts]; intros H ap fr r v Hfr Hd.
+  - rewrite eva_nil. apply pure_stuck.
+  - apply andb_true_iff in Hd. destruct Hd as [Hd1 Hd2]. destruct H as [He Hes]. rewrite eva_cons.
     destruct (match_pat p v); [apply He; auto | apply IH; auto | apply pure_stuck].
+Qed.
+
+(* making a group whose value members are droppable is pure *)
+Lemma dp_members : forall cs, all_clos dp cs ->
+  forall ap fr r, fr_pure fr -> values_droppable cs = true -> pure_out (evm ap fr r cs).
+Proof.
+  unfold values_droppable.
+  induction cs as [|f ps body cs IH]; cbn [all_clos droppable_clos]; intros H ap fr r Hfr Hd.
+  - rewrite evm_nil. apply pure_ret.
+  - apply andb_true_iff in Hd. destruct Hd as [Hd1 Hd2]. destruct H as [Hb Hcs]. rewrite evm_cons.
+    destruct ps as [|p0 ps]; [|apply IH; auto].
+    cbn [is_nil negb orb] in Hd1. apply pure_bind; [apply Hb; auto|]. intros _. apply IH; auto.
 Qed.
 
 Lemma droppable_pure_all : forall e, dp e.
 Proof.
-  induction e using cexpr_ind'; unfold dp in *; intros ap r Hd; cbn [droppable] in Hd.
-  - apply pure_ret.
-  - cbn [Core.ev]. destruct (lookup x r); [apply pure_ret | apply pure_stuck].
+  induction e using cexpr_ind'; unfold dp in *; intros ap fr r Hfr Hd; cbn [droppable] in Hd.
+  - rewrite ev_const. apply pure_ret.
+  - rewrite ev_ident. destruct (lookup x r); [apply pure_ret | apply pure_stuck].
   - discriminate.
   - (* Call *)
     destruct e; try discriminate.
     destruct args as [|a [|b [|c r']]]; try discriminate.
     cbn [all_list] in H. destruct H as (Ha & Hb & _).
     apply andb_true_iff in Hd. destruct Hd as [Hd Hdb]. apply andb_true_iff in Hd. destruct Hd as [Hp Hda].
-    cbn [Core.ev]. unfold Core.prim_sem.
-    assert (G : pure_out (bind (ev ap r a) (fun va => bind (ev ap r b) (fun vb => (prim_apply p va vb, []))))).
+    rewrite ev_call. cbn [prim_view]. unfold Core.prim_sem.
+    assert (G : pure_out (bind (ev ap fr r a) (fun va => bind (ev ap fr r b) (fun vb => (prim_apply p va vb, []))))).
     { apply pure_bind; [apply Ha; auto|]. intros va. apply pure_bind; [apply Hb; auto|]. intros vb.
       split; [reflexivity|]. apply prim_apply_pure. }
     destruct p; try exact G; discriminate.
-  - cbn [Core.ev]. apply pure_bind; [apply dp_list; auto|]. intros. apply pure_ret.
-  - cbn [Core.ev]. apply pure_bind; [apply dp_list; auto|]. intros vs.
+  - rewrite ev_data. apply pure_bind; [apply dp_list; auto|]. intros. apply pure_ret.
+  - rewrite ev_rec. apply pure_bind; [apply dp_list; auto|]. intros vs.
     destruct (Nat.eqb (length ns) (length vs)); [apply pure_ret | apply pure_stuck].
-  - apply andb_true_iff in Hd. destruct Hd. cbn [Core.ev]. apply pure_bind; auto.
-  - cbn [Core.ev]. destruct (has_value_member cs); [apply pure_stuck | auto].
-  - apply andb_true_iff in Hd. destruct Hd. cbn [Core.ev]. apply pure_bind; auto.
-    intros v. apply dp_alts; auto.
-  - cbn [Core.ev]. auto.
-Qed.
-
-(* a droppable expression: empty log; a value, EArith or EStuck; whatever the fuel *)
-Theorem droppable_pure : forall e n r o l,
-  droppable e = true -> eval n r e = (o, l) ->
-  l = [] /\ ((exists v, o = Val v) \/ o = Err EArith \/ o = Err EStuck).
-Proof.
-  intros e n r o l Hd He. unfold Core.eval in He.
-  destruct (droppable_pure_all e (apply n) r Hd) as [H1 H2]. rewrite He in H1, H2. cbn [fst snd] in *.
-  split; auto. destruct o as [v|e0|]; [eauto | destruct H2; subst; auto | contradiction].
+  - apply andb_true_iff in Hd. destruct Hd. rewrite ev_let. apply pure_bind; auto.
+  - (* LetRec: droppable requires the value members to be droppable too *)
+    apply andb_true_iff in Hd. destruct Hd as [Hv Hb]. rewrite ev_letrec.
+    apply pure_bind; [apply dp_members; auto|]. intros _. auto.
+  - apply andb_true_iff in Hd. destruct Hd. rewrite ev_match. apply pure_bind; auto.
+    intros v. apply pure_bind; [apply Hfr|]. intros w. apply dp_alts; auto.
+  - rewrite ev_cast. auto.
 Qed.
 
 (* ------------------------------------------------------------------------------------------ *)
@@ -620,7 +635,8 @@ Proof.
   - destruct cs' as [|f' ps' body' r']; [discriminate|].
     rewrite !andb_true_iff in H. destruct H as [[[Hf _] _] Hr]. apply N.eqb_eq in Hf. subst f'.
     cbn [clo_names In] in *. destruct Hg as [->|Hg]; [auto|]. destruct (IH _ _ _ Hr g Hg); auto.
-  - apply andb_true_iff in H. destruct H as [Hn Hr]. apply negb_true_iff, memb_false in Hn.
+  - apply andb_true_iff in H. destruct H as [Hn Hr]. apply andb_true_iff in Hn. destruct Hn as [Hn _].
+    apply negb_true_iff, memb_false in Hn.
     cbn [clo_names In] in Hg. destruct Hg as [<-|Hg]; [auto|]. eauto.
 Qed.
 
@@ -650,20 +666,6 @@ Proof.
       assert (Hgr : In g (clo_names r)) by (eapply vo_clos_names; eauto).
       cbn [find_clo]. destruct (N.eqb g f) eqn:E; [apply N.eqb_eq in E; subst; tauto|].
       apply (IH _ _ _ Hr Hnd' g Hg).
-Qed.
-
-Lemma vo_clos_value_member : forall k cs cs' kfv, vo_clos k cs cs' kfv = true ->
-  has_value_member cs = false -> has_value_member cs' = false.
-Proof.
-  induction k as [|k IH]; intros cs cs' kfv H Hv; cbn [vo_clos] in H; [discriminate|].
-  destruct cs as [|f ps body r].
-  - destruct cs'; [reflexivity|discriminate].
-  - cbn [has_value_member] in Hv. destruct ps as [|p0 ps]; [discriminate|].
-    apply orb_true_iff in H. destruct H as [H|H].
-    + destruct cs' as [|f' ps' body' r']; [discriminate|].
-      rewrite !andb_true_iff in H. destruct H as [[[Hf Hps] Hb] Hr].
-      apply list_N_eqb_eq in Hps. subst ps'. cbn [has_value_member]. eauto.
-    + apply andb_true_iff in H. destruct H as [_ Hr]. eauto.
 Qed.
 
 (* ------------------------------------------------------------------------------------------ *)
@@ -715,13 +717,13 @@ Lemma bind_ext_val : forall (A B : Type) (r : out A * log) (f g : A -> out B * l
   (forall a l, r = (Val a, l) -> f a = g a) -> bind r f = bind r g.
 Proof. intros A B [[a|e|] l] f g H; cbn [bind]; auto. rewrite (H a l eq_refl). reflexivity. Qed.
 
-Lemma evl_length : forall ap r es vs l, evl ap r es = (Val vs, l) -> length vs = length_list es.
+Lemma evl_length : forall ap fr r es vs l, evl ap fr r es = (Val vs, l) -> length vs = length_list es.
 Proof.
   induction es as [|e es IH]; intros vs l H; cbn [length_list].
   - rewrite evl_nil in H. unfold ret in H. injection H as <- _. reflexivity.
   - rewrite evl_cons in H.
-    destruct (ev ap r e) as [[v|e0|] l1]; cbn [bind] in H; try discriminate.
-    destruct (evl ap r es) as [[vs'|e0|] l2] eqn:E; unfold ret in H; cbn [bind] in H; try discriminate.
+    destruct (ev ap fr r e) as [[v|e0|] l1]; cbn [bind] in H; try discriminate.
+    destruct (evl ap fr r es) as [[vs'|e0|] l2] eqn:E; unfold ret in H; cbn [bind] in H; try discriminate.
     injection H as <- _. cbn [length]. f_equal. eauto.
 Qed.
 
@@ -769,7 +771,7 @@ Lemma vo_letrec : forall k cs body b, vo (S k) (LetRec cs body) b =
    | LetRec cs' body' => nodupb (clo_names cs) && vo_clos k cs cs' (fv_clos cs' ++ fv body') && vo k body body'
    | _ => false
    end)
-  || (disjointb (clo_names cs) (fv b) && vo k body b).
+  || (disjointb (clo_names cs) (fv b) && values_droppable cs && vo k body b).
 Proof. reflexivity. Qed.
 Lemma vo_match : forall k s alts b, vo (S k) (Match s alts) b =
   (match b with Match s' alts' => vo k s s' && vo_alts k alts alts' | _ => false end)
@@ -853,17 +855,26 @@ Qed.
 Lemma prim_view_not_prim : forall f args, is_prim f = false -> prim_view f args = None.
 Proof. intros f args H. destruct f; try reflexivity. discriminate. Qed.
 
+Definition force_ok (fr1 fr2 : value -> res) : Prop :=
+  forall v1 v2, vrel v1 v2 -> rrel vrel (fr1 v1) (fr2 v2).
+(* looking at a record that is not a recursive value leaves it as it is *)
+Definition fr_data (fr : value -> res) : Prop := forall fs, fr (VRec fs) = ret (VRec fs).
+
 Section WithAp.
 Variables ap1 ap2 : value -> list value -> res.
+Variables fr1 fr2 : value -> res.
 Hypothesis Hap : apply_ok ap1 ap2.
+Hypothesis Hfr : force_ok fr1 fr2.
+Hypothesis Hfp : fr_pure fr1.
+Hypothesis Hfd : fr_data fr1.
 
 Definition P_ev (k : nat) : Prop := forall a b r1 r2,
-  vo k a b = true -> erel (fv b) r1 r2 -> rrel vrel (ev ap1 r1 a) (ev ap2 r2 b).
+  vo k a b = true -> erel (fv b) r1 r2 -> rrel vrel (ev ap1 fr1 r1 a) (ev ap2 fr2 r2 b).
 Definition P_evl (k : nat) : Prop := forall es es' r1 r2,
-  vo_list k es es' = true -> erel (fv_list es') r1 r2 -> rrel (Forall2 vrel) (evl ap1 r1 es) (evl ap2 r2 es').
+  vo_list k es es' = true -> erel (fv_list es') r1 r2 -> rrel (Forall2 vrel) (evl ap1 fr1 r1 es) (evl ap2 fr2 r2 es').
 Definition P_eva (k : nat) : Prop := forall alts alts' r1 r2 v1 v2,
   vo_alts k alts alts' = true -> vrel v1 v2 -> erel (fv_alts alts') r1 r2 ->
-  rrel vrel (eva ap1 r1 v1 alts) (eva ap2 r2 v2 alts').
+  rrel vrel (eva ap1 fr1 r1 v1 alts) (eva ap2 fr2 r2 v2 alts').
 
 Lemma P_evl_step : forall k, P_ev k -> P_evl k -> P_evl (S k).
 Proof.
@@ -896,7 +907,6 @@ Proof.
     + apply rrel_stuck.
 Qed.
 
-End WithAp.
 
 (* the bookkeeping of R3: [done] are the fields evaluated so far on the first side, [r2k] the
    bindings the second side has kept for them (their binders are [kept]) *)
@@ -909,16 +919,13 @@ Definition Inv (pfs : list (N * N)) (done : list (N * value)) (kept : list N) (r
         (forall fn, In fn (map fst done) -> lookup fn pfs <> Some x)
         /\ (forall v1, lookup x r1 = Some v1 -> exists v2, lookup x r2 = Some v2 /\ vrel v1 v2)).
 
-Definition fields_kont (ap : value -> list value -> res) (pfs : list (N * N)) (done : list (N * value))
+Definition fields_kont (ap : value -> list value -> res) (fr : value -> res) (pfs : list (N * N)) (done : list (N * value))
     (ns : list N) (r1 : env) (body : cexpr) (vs : list value) : res :=
   match lookup_fields pfs (done ++ combine ns vs) with
-  | Some bs => ev ap (bs ++ r1) body
+  | Some bs => ev ap fr (bs ++ r1) body
   | None => stuck
   end.
 
-Section WithAp2.
-Variables ap1 ap2 : value -> list value -> res.
-Hypothesis Hap : apply_ok ap1 ap2.
 
 Definition P_fields (k : nat) : Prop := forall ns args pfs body kept b done r1 r2 r2k,
   vo_fields k ns args pfs body kept b = true ->
@@ -927,13 +934,13 @@ Definition P_fields (k : nat) : Prop := forall ns args pfs body kept b done r1 r
   map fst r2k = kept -> NoDup kept ->
   (forall fn x, In (fn, x) pfs -> In fn (map fst done ++ ns)) ->
   Inv pfs done kept r2k (fv b) r1 r2 ->
-  rrel vrel (bind (evl ap1 r1 args) (fields_kont ap1 pfs done ns r1 body)) (ev ap2 (r2k ++ r2) b).
+  rrel vrel (bind (evl ap1 fr1 r1 args) (fields_kont ap1 fr1 pfs done ns r1 body)) (ev ap2 fr2 (r2k ++ r2) b).
 
 Lemma lookup_snoc_old : forall (A : Type) x (l : list (N * A)) y a v,
   lookup x l = Some v -> lookup x (l ++ [(y, a)]) = Some v.
 Proof. intros. apply lookup_app_l. assumption. Qed.
 
-Lemma P_fields_step : forall k, P_ev ap1 ap2 k -> P_fields k -> P_fields (S k).
+Lemma P_fields_step : forall k, P_ev k -> P_fields k -> P_fields (S k).
 Proof.
   intros k Hev Hfl ns args pfs body kept b done r1 r2 r2k H Hnd2 Hnd1 Hndn Hk Hndk Hincl HI.
   rewrite vo_fields_S in H.
@@ -961,8 +968,8 @@ Proof.
     rewrite evl_cons, bind_cons_assoc.
     assert (Hfresh : ~ In fn (map fst done)).
     { intros Hc. apply NoDup_remove_2 in Hndn. apply Hndn. apply in_or_app. auto. }
-    assert (Hkont : forall v vs, fields_kont ap1 pfs done (fn :: ns') r1 body (v :: vs)
-                               = fields_kont ap1 pfs (done ++ [(fn, v)]) ns' r1 body vs).
+    assert (Hkont : forall v vs, fields_kont ap1 fr1 pfs done (fn :: ns') r1 body (v :: vs)
+                               = fields_kont ap1 fr1 pfs (done ++ [(fn, v)]) ns' r1 body vs).
     { intros. unfold fields_kont. cbn [combine]. rewrite <- app_assoc. reflexivity. }
     assert (Hndn' : forall v : value, NoDup (map fst (done ++ [(fn, v)]) ++ ns')).
     { intros. rewrite map_app, <- app_assoc. exact Hndn. }
@@ -1015,8 +1022,8 @@ Proof.
               apply N.eqb_eq in Hbind. congruence.
     + (* the binding is dropped *)
       rewrite !andb_true_iff in H. destruct H as [[Hd Hbind] Hrest].
-      destruct (droppable_pure_all e ap1 r1 Hd) as [Hl Ho].
-      destruct (ev ap1 r1 e) as [[v1|e0|] l]; cbn [fst snd] in *; subst l.
+      destruct (droppable_pure_all e ap1 fr1 r1 Hfp Hd) as [Hl Ho].
+      destruct (ev ap1 fr1 r1 e) as [[v1|e0|] l]; cbn [fst snd] in *; subst l.
       * rewrite bind_val_nil. erewrite bind_ext_val; [|intros vs l _; apply Hkont].
         apply Hfl with (kept := kept);
           [exact Hrest | exact Hnd2 | exact Hnd1 | apply Hndn' | exact Hk | exact Hndk | apply Hincl' | ].
@@ -1029,25 +1036,60 @@ Proof.
            destruct (lookup fn pfs) as [x0|] eqn:EB; [|congruence].
            apply negb_true_iff, memb_false in Hbind. congruence.
       * cbn [bind]. apply rrel_lenient_nil. exact Ho.
-      * contradiction.
+      * cbn [bind]. exact I.
 Qed.
 
-End WithAp2.
 
-Section WithAp3.
-Variables ap1 ap2 : value -> list value -> res.
-Hypothesis Hap : apply_ok ap1 ap2.
 
 Lemma map_fst_group : forall (F : N -> value) names, map fst (map (fun g => (g, F g)) names) = names.
 Proof. induction names; cbn; congruence. Qed.
 
+Lemma remove_all_nil : forall l, remove_all [] l = l.
+Proof. induction l as [|y l IH]; cbn [remove_all memb]; congruence. Qed.
+
+Lemma all_clos_dp : forall cs, all_clos dp cs.
+Proof. induction cs as [|f ps b cs IH]; cbn [all_clos]; auto. split; [apply droppable_pure_all|exact IH]. Qed.
+
+(* making the group: the kept value members are evaluated alike, the dropped ones are pure *)
+Lemma evm_sound : forall k, (forall j, j < k -> P_ev j) ->
+  forall cs cs' kfv R1 R2, vo_clos k cs cs' kfv = true -> erel (fv_clos cs') R1 R2 ->
+  rrel (fun _ _ : unit => True) (evm ap1 fr1 R1 cs) (evm ap2 fr2 R2 cs').
+Proof.
+  induction k as [|k IH]; intros HP cs cs' kfv R1 R2 H He; cbn [vo_clos] in H; [discriminate|].
+  destruct cs as [|f ps body r].
+  - destruct cs'; [|discriminate]. rewrite !evm_nil. apply rrel_ret. exact I.
+  - apply orb_true_iff in H. destruct H as [H|H].
+    + destruct cs' as [|f' ps' body' r']; [discriminate|].
+      rewrite !andb_true_iff in H. destruct H as [[[Hf Hps] Hb] Hr].
+      apply list_N_eqb_eq in Hps. subst ps'. rewrite !evm_cons.
+      change (fv_clos (CCons f' ps body' r')) with (remove_all ps (fv body') ++ fv_clos r') in He.
+      assert (Hrest : rrel (fun _ _ : unit => True) (evm ap1 fr1 R1 r) (evm ap2 fr2 R2 r')).
+      { eapply IH; [intros j Hj; apply HP; lia|exact Hr|]. eapply erel_sub; [|exact He].
+        intros x Hx. apply in_or_app. auto. }
+      destruct ps as [|p0 ps]; [|exact Hrest].
+      eapply rrel_bind.
+      * apply (HP k); [lia|exact Hb|]. eapply erel_sub; [|exact He]. intros x Hx. apply in_or_app. left.
+        rewrite remove_all_nil. exact Hx.
+      * intros _ _ _. exact Hrest.
+    + rewrite !andb_true_iff in H. destruct H as [[_ Hd] Hr]. rewrite evm_cons.
+      assert (Hrest : rrel (fun _ _ : unit => True) (evm ap1 fr1 R1 r) (evm ap2 fr2 R2 cs')).
+      { eapply IH; [intros j Hj; apply HP; lia|exact Hr|exact He]. }
+      destruct ps as [|p0 ps]; [|exact Hrest].
+      cbn [is_nil negb orb] in Hd.
+      destruct (droppable_pure_all body ap1 fr1 R1 Hfp Hd) as [Hl Ho].
+      destruct (ev ap1 fr1 R1 body) as [[v|e0|] l]; cbn [fst snd] in *; subst l.
+      * rewrite bind_val_nil. exact Hrest.
+      * cbn [bind]. apply rrel_lenient_nil. exact Ho.
+      * cbn [bind]. exact I.
+Qed.
+
 (* strong form: the induction hypothesis at every smaller fuel of the checker *)
 Definition IHs (k : nat) : Prop :=
-  forall j, j <= k -> P_ev ap1 ap2 j /\ P_evl ap1 ap2 j /\ P_eva ap1 ap2 j /\ P_fields ap1 ap2 j.
+  forall j, j <= k -> P_ev j /\ P_evl j /\ P_eva j /\ P_fields j.
 
 Lemma vo_zero : forall a b, vo 0 a b = false. Proof. reflexivity. Qed.
 
-Lemma P_ev_step : forall k, IHs k -> P_ev ap1 ap2 (S k).
+Lemma P_ev_step : forall k, IHs k -> P_ev (S k).
 Proof.
   intros k IH a b r1 r2 H He.
   destruct (IH k (le_n k)) as (Hev & Hevl & Heva & Hfl).
@@ -1112,39 +1154,48 @@ Proof.
         eapply erel_sub; [|exact He]. intros y Hy. apply in_or_app. auto.
     + rewrite !andb_true_iff in H. destruct H as [[Hd Hx] Hb].
       apply negb_true_iff, memb_false in Hx.
-      rewrite ev_let. destruct (droppable_pure_all rhs ap1 r1 Hd) as [Hl Ho].
-      destruct (ev ap1 r1 rhs) as [[v|e0|] l]; cbn [fst snd] in *; subst l.
+      rewrite ev_let. destruct (droppable_pure_all rhs ap1 fr1 r1 Hfp Hd) as [Hl Ho].
+      destruct (ev ap1 fr1 r1 rhs) as [[v|e0|] l]; cbn [fst snd] in *; subst l.
       * rewrite bind_val_nil. apply Hev; [exact Hb|].
         apply (erel_drop_l (fv b) [(x, v)] r1 r2); [|exact He].
         intros y Hy [<-|[]]. exact (Hx Hy).
       * cbn [bind]. apply rrel_lenient_nil. exact Ho.
-      * contradiction.
+      * cbn [bind]. exact I.
   - (* LetRec *)
     rewrite vo_letrec in H. apply orb_true_iff in H. destruct H as [H|H].
     + destruct b as [| | | | | | |cs' body'| |]; try discriminate.
       rewrite !andb_true_iff in H. destruct H as [[Hnd Hcs] Hb]. apply nodupb_spec in Hnd.
-      rewrite !ev_letrec. destruct (has_value_member cs) eqn:HV; [apply rrel_stuck|].
-      rewrite (vo_clos_value_member _ _ _ _ Hcs HV). apply Hev; [exact Hb|].
-      rewrite fv_letrec in He.
-      intros x v1 Hx Hl. rewrite lookup_bind_group in Hl. rewrite lookup_bind_group.
-      destruct (memb x (clo_names cs')) eqn:M2.
-      * apply memb_In in M2. pose proof (vo_clos_names _ _ _ _ Hcs x M2) as M1.
-        apply memb_In in M1. rewrite M1 in Hl. injection Hl as <-.
-        eexists. split; [reflexivity|].
-        eapply vr_clo with (k := k) (kfv := fv_clos cs' ++ fv body'); eauto.
-        -- intros y Hy. apply in_or_app. auto.
-        -- intros y w1 Hy Hw. apply He; auto. apply In_remove_all in Hy. destruct Hy as [Hy1 Hy2].
-           apply In_remove_all. split; [apply in_or_app; auto|exact Hy2].
-      * apply memb_false in M2.
-        assert (M1 : ~ In x (clo_names cs)).
-        { intros Hc. destruct (vo_clos_dropped _ _ _ _ Hcs x Hc) as [Hc'|Hc']; [tauto|].
-          apply Hc'. apply in_or_app. auto. }
-        apply memb_false in M1. rewrite M1 in Hl. apply He; auto.
-        apply In_remove_all. split; [apply in_or_app; auto|exact M2].
-    + apply andb_true_iff in H. destruct H as [Hd Hb]. rewrite disjointb_spec in Hd.
-      rewrite ev_letrec. destruct (has_value_member cs); [apply rrel_stuck|].
-      apply Hev; [exact Hb|]. unfold bind_group. apply erel_drop_l; [|exact He].
-      intros y Hy Hc. rewrite map_fst_group in Hc. exact (Hd y Hc Hy).
+      rewrite !ev_letrec. rewrite fv_letrec in He.
+      assert (HG : erel (fv_clos cs' ++ fv body') (bind_group r1 cs) (bind_group r2 cs')).
+      { intros x v1 Hx Hl. rewrite lookup_bind_group in Hl. rewrite lookup_bind_group.
+        destruct (memb x (clo_names cs')) eqn:M2.
+        * apply memb_In in M2. pose proof (vo_clos_names _ _ _ _ Hcs x M2) as M1.
+          apply memb_In in M1. rewrite M1 in Hl. injection Hl as <-.
+          eexists. split; [reflexivity|].
+          eapply vr_clo with (k := k) (kfv := fv_clos cs' ++ fv body'); eauto.
+          -- intros y Hy. apply in_or_app. auto.
+          -- intros y w1 Hy Hw. apply He; auto. apply In_remove_all in Hy. destruct Hy as [Hy1 Hy2].
+             apply In_remove_all. split; [apply in_or_app; auto|exact Hy2].
+        * apply memb_false in M2.
+          assert (M1 : ~ In x (clo_names cs)).
+          { intros Hc. destruct (vo_clos_dropped _ _ _ _ Hcs x Hc) as [Hc'|Hc']; [tauto|]. exact (Hc' Hx). }
+          apply memb_false in M1. rewrite M1 in Hl. apply He; auto.
+          apply In_remove_all. split; [exact Hx|exact M2]. }
+      eapply rrel_bind.
+      * eapply evm_sound; [|exact Hcs|].
+        -- intros j Hj. destruct (IH j) as (Hj1 & _); [lia|exact Hj1].
+        -- eapply erel_sub; [|exact HG]. intros x Hx. apply in_or_app. auto.
+      * intros _ _ _. apply Hev; [exact Hb|]. eapply erel_sub; [|exact HG]. intros x Hx. apply in_or_app. auto.
+    + rewrite !andb_true_iff in H. destruct H as [[Hd Hvd] Hb]. rewrite disjointb_spec in Hd.
+      rewrite ev_letrec.
+      assert (Henv : erel (fv b) (bind_group r1 cs) r2).
+      { unfold bind_group. apply erel_drop_l; [|exact He].
+        intros y Hy Hc. rewrite map_fst_group in Hc. exact (Hd y Hc Hy). }
+      destruct (dp_members cs (all_clos_dp cs) ap1 fr1 (bind_group r1 cs) Hfp Hvd) as [Hl Ho].
+      destruct (evm ap1 fr1 (bind_group r1 cs) cs) as [[u|e0|] l]; cbn [fst snd] in *; subst l.
+      * rewrite bind_val_nil. apply Hev; [exact Hb|exact Henv].
+      * cbn [bind]. apply rrel_lenient_nil. exact Ho.
+      * cbn [bind]. exact I.
   - (* Match *)
     rewrite vo_match in H. apply orb_true_iff in H. destruct H as [H|H]; [apply orb_true_iff in H; destruct H as [H|H]|].
     + (* congruence *)
@@ -1152,7 +1203,8 @@ Proof.
       apply andb_true_iff in H. destruct H as [Hs Ha]. rewrite !ev_match. rewrite fv_match in He.
       eapply rrel_bind.
       * apply Hev; [exact Hs|]. eapply erel_sub; [|exact He]. intros y Hy. apply in_or_app. auto.
-      * intros v1 v2 Hv. apply Heva; [exact Ha|exact Hv|]. eapply erel_sub; [|exact He].
+      * intros v1 v2 Hv. eapply rrel_bind; [apply Hfr; exact Hv|]. intros w1 w2 Hw.
+        apply Heva; [exact Ha|exact Hw|]. eapply erel_sub; [|exact He].
         intros y Hy. apply in_or_app. auto.
     + (* R3: a record that is taken apart at once *)
       destruct s as [| | | | |ns args| | | |]; try discriminate.
@@ -1162,9 +1214,9 @@ Proof.
       rewrite inclb_spec in Hinc. apply Nat.eqb_eq in Hlen.
       rewrite ev_match, ev_rec, bind_assoc.
       erewrite bind_ext_val.
-      2:{ intros vs l Hvs. apply evl_length in Hvs. rewrite Hlen, <- Hvs, Nat.eqb_refl, bind_ret_l, eva_cons.
+      2:{ intros vs l Hvs. apply evl_length in Hvs. rewrite Hlen, <- Hvs, Nat.eqb_refl, bind_ret_l, Hfd, bind_ret_l, eva_cons.
           cbn [Core.match_pat].
-          instantiate (1 := fields_kont ap1 pfs [] ns r1 body). unfold fields_kont. cbn [app].
+          instantiate (1 := fields_kont ap1 fr1 pfs [] ns r1 body). unfold fields_kont. cbn [app].
           destruct (lookup_fields pfs (combine ns vs)); reflexivity. }
       change r2 with ([] ++ r2).
       apply Hfl with (kept := []); auto.
@@ -1175,26 +1227,25 @@ Proof.
     + (* R4: a record match none of whose binders is used *)
       destruct alts as [|[| pfs | |] body [|]]; try discriminate.
       rewrite !andb_true_iff in H. destruct H as [[Hd Hdis] Hb]. rewrite disjointb_spec in Hdis.
-      rewrite ev_match. destruct (droppable_pure_all s ap1 r1 Hd) as [Hl Ho].
-      destruct (ev ap1 r1 s) as [[v|e0|] l]; cbn [fst snd] in *; subst l.
-      * rewrite bind_val_nil, eva_cons. destruct (match_pat (PRec pfs) v) as [bs| |] eqn:MP.
+      rewrite ev_match. destruct (droppable_pure_all s ap1 fr1 r1 Hfp Hd) as [Hl Ho].
+      destruct (ev ap1 fr1 r1 s) as [[v|e0|] l]; cbn [fst snd] in *; subst l.
+      * rewrite bind_val_nil. destruct (Hfp v) as [Hl2 Ho2].
+        destruct (fr1 v) as [[w|e1|] l2]; cbn [fst snd] in *; subst l2;
+          [|cbn [bind]; apply rrel_lenient_nil; exact Ho2|cbn [bind]; exact I].
+        rewrite bind_val_nil, eva_cons. destruct (match_pat (PRec pfs) w) as [bs| |] eqn:MP.
         -- apply Hev; [exact Hb|]. apply erel_drop_l; [|exact He].
            intros y Hy Hc. rewrite (match_pat_dom _ _ _ MP) in Hc. cbn [pat_binders] in Hc. exact (Hdis y Hc Hy).
         -- rewrite eva_nil. apply rrel_stuck.
         -- apply rrel_stuck.
       * cbn [bind]. apply rrel_lenient_nil. exact Ho.
-      * contradiction.
+      * cbn [bind]. exact I.
   - (* Cast *)
     rewrite vo_cast in H. destruct b; try discriminate. rewrite !ev_cast. rewrite fv_cast in He. apply Hev; auto.
 Qed.
 
-End WithAp3.
 
-Section WithAp4.
-Variables ap1 ap2 : value -> list value -> res.
-Hypothesis Hap : apply_ok ap1 ap2.
 
-Lemma IHs_all : forall k, IHs ap1 ap2 k.
+Lemma IHs_all : forall k, IHs k.
 Proof.
   induction k as [|k IH]; intros j Hj.
   - assert (j = 0) by lia. subst j. repeat split.
@@ -1211,10 +1262,10 @@ Proof.
 Qed.
 
 Lemma vo_sound_ap : forall k a b r1 r2,
-  vo k a b = true -> erel (fv b) r1 r2 -> rrel vrel (ev ap1 r1 a) (ev ap2 r2 b).
+  vo k a b = true -> erel (fv b) r1 r2 -> rrel vrel (ev ap1 fr1 r1 a) (ev ap2 fr2 r2 b).
 Proof. intros k. destruct (IHs_all k k (le_n k)) as (H & _). exact H. Qed.
 
-End WithAp4.
+End WithAp.
 
 (* ------------------------------------------------------------------------------------------ *)
 (* function application *)
@@ -1244,41 +1295,146 @@ Proof.
   - right. eauto.
 Qed.
 
-Lemma apply_sound : forall n, apply_ok (apply n) (apply n).
+Lemma force_eq : forall n v, force n v =
+  match v with
+  | VClo rc cs g =>
+      match find_clo g cs with
+      | Some ([], body) =>
+          match n with
+          | O => (OOF, [])
+          | S n' =>
+              match ev (apply n') (force n') (bind_group rc cs) body with
+              | (Val w, _) => (Val w, [])
+              | (Err _, _) => (Err EStuck, [])
+              | (OOF, _) => (OOF, [])
+              end
+          end
+      | _ => ret v
+      end
+  | _ => ret v
+  end.
+Proof. destruct n; reflexivity. Qed.
+
+Lemma apply_S : forall n vf vs, apply (S n) vf vs =
+    if is_nil vs then ret vf else
+    match vf with
+    | VClo rc cs f =>
+        match find_clo f cs with
+        | None => stuck
+        | Some (params, body) =>
+            if is_nil params then stuck
+            else if Nat.ltb (length vs) (length params) then ret (VPap vf vs)
+            else
+              bind (ev (apply n) (force n) (combine params (firstn (length params) vs) ++ bind_group rc cs) body)
+                   (fun v => apply n v (skipn (length params) vs))
+        end
+    | VPap g vs0 => apply n g (vs0 ++ vs)
+    | VHost h =>
+        match vs with
+        | [] => ret vf
+        | v :: later => bind (host_call h v) (fun w => apply n w later)
+        end
+    | _ => stuck
+    end.
+Proof. reflexivity. Qed.
+
+Lemma force_pure : forall n, fr_pure (force n).
 Proof.
-  induction n as [|n IH]; intros vf1 vf2 vs1 vs2 Hf Hvs; [exact I|].
-  cbn [Core.apply].
-  destruct Hvs as [|a1 a2 t1 t2 Ha Ht]; cbn [is_nil]; [apply rrel_ret; exact Hf|].
-  assert (Hvs : Forall2 vrel (a1 :: t1) (a2 :: t2)) by (constructor; auto).
-  destruct Hf as [z|z|z|s|c ws1 ws2 Hw|fs1 fs2 Hfs|r1 r2 cs1 cs2 f k kfv Hnd Hcs Hkfv Hin Henv|g1 g2 b1 b2 Hg Hb|h];
-    try apply rrel_stuck.
-  - (* closures *)
+  intros n v. rewrite force_eq. destruct v; try apply pure_ret.
+  destruct (find_clo f cs) as [[[|p0 ps] body]|]; try apply pure_ret.
+  destruct n; [split; cbn; auto|].
+  destruct (ev (apply n) (force n) (bind_group env cs) body) as [[w|e|] l]; split; cbn; auto. right. reflexivity.
+Qed.
+
+Lemma force_data : forall n, fr_data (force n).
+Proof. intros n fs. rewrite force_eq. reflexivity. Qed.
+
+(* inside a group both runs see related members and related captured variables *)
+Lemma group_env_rel : forall r1 r2 cs1 cs2 k kfv,
+  NoDup (clo_names cs1) ->
+  vo_clos k cs1 cs2 kfv = true ->
+  (forall x, In x (fv_clos cs2) -> In x kfv) ->
+  (forall x v1, In x (remove_all (clo_names cs2) (fv_clos cs2)) -> lookup x r1 = Some v1 ->
+      exists v2, lookup x r2 = Some v2 /\ vrel v1 v2) ->
+  erel (fv_clos cs2) (bind_group r1 cs1) (bind_group r2 cs2).
+Proof.
+  intros r1 r2 cs1 cs2 k kfv Hnd Hcs Hkfv Henv x v1 Hxc Hl.
+  rewrite lookup_bind_group in Hl. rewrite lookup_bind_group.
+  destruct (memb x (clo_names cs2)) eqn:M2.
+  - apply memb_In in M2. pose proof (vo_clos_names _ _ _ _ Hcs x M2) as M1.
+    apply memb_In in M1. rewrite M1 in Hl. injection Hl as <-.
+    eexists. split; [reflexivity|]. econstructor; eauto.
+  - apply memb_false in M2.
+    assert (M1 : ~ In x (clo_names cs1)).
+    { intros Hc. destruct (vo_clos_dropped _ _ _ _ Hcs x Hc) as [Hc'|Hc']; [tauto|]. apply Hc'. auto. }
+    apply memb_false in M1. rewrite M1 in Hl. apply Henv; [|exact Hl].
+    apply In_remove_all. auto.
+Qed.
+
+Lemma apply_force_sound : forall n, apply_ok (apply n) (apply n) /\ force_ok (force n) (force n).
+Proof.
+  induction n as [|n [IHa IHf]].
+  - split; [intros vf1 vf2 vs1 vs2 _ _; exact I|].
+    intros v1 v2 Hv. rewrite !force_eq.
+    destruct Hv as [z|z|z|s|c ws1 ws2 Hw|fs1 fs2 Hfs|r1 r2 cs1 cs2 f k kfv Hnd Hcs Hkfv Hin Henv|g1 g2 b1 b2 Hg Hb|h];
+      try (apply rrel_ret; constructor; assumption).
     destruct (vo_clos_find _ _ _ _ Hcs Hnd f Hin) as (ps & body1 & body2 & k' & F1 & F2 & Hvo).
-    rewrite F1, F2. destruct (is_nil ps); [apply rrel_stuck|].
-    rewrite <- (Forall2_length' _ _ _ _ _ Hvs).
-    destruct (Nat.ltb (length (a1 :: t1)) (length ps)) eqn:LT.
-    + apply rrel_ret. constructor; [|exact Hvs]. econstructor; eauto.
-    + apply Nat.ltb_ge in LT. eapply rrel_bind.
-      * eapply (vo_sound_ap _ _ IH); [exact Hvo|].
-        apply erel_app; [apply Forall2_combine_brel, Forall2_firstn; exact Hvs|].
-        rewrite map_fst_combine by (rewrite firstn_length; lia).
-        intros x v1 Hx Hl.
-        pose proof (find_clo_fv _ _ _ _ F2 x Hx) as Hxc.
-        rewrite lookup_bind_group in Hl. rewrite lookup_bind_group.
-        destruct (memb x (clo_names cs2)) eqn:M2.
-        -- apply memb_In in M2. pose proof (vo_clos_names _ _ _ _ Hcs x M2) as M1.
-           apply memb_In in M1. rewrite M1 in Hl. injection Hl as <-.
-           eexists. split; [reflexivity|]. econstructor; eauto.
-        -- apply memb_false in M2.
-           assert (M1 : ~ In x (clo_names cs1)).
-           { intros Hc. destruct (vo_clos_dropped _ _ _ _ Hcs x Hc) as [Hc'|Hc']; [tauto|]. apply Hc'. auto. }
-           apply memb_false in M1. rewrite M1 in Hl. apply Henv; [|exact Hl].
-           apply In_remove_all. auto.
-      * intros w1 w2 Hw. apply IH; [exact Hw|]. apply Forall2_skipn. exact Hvs.
-  - (* partial applications *)
-    apply IH; [exact Hg|]. apply Forall2_app; assumption.
-  - (* host functions *)
-    eapply rrel_bind; [apply host_call_rel; exact Ha|]. intros w1 w2 Hw. apply IH; assumption.
+    rewrite F1, F2. destruct ps; [exact I|].
+    apply rrel_ret. econstructor; eauto.
+  - split.
+    + intros vf1 vf2 vs1 vs2 Hf Hvs. rewrite !apply_S.
+      destruct Hvs as [|a1 a2 t1 t2 Ha Ht]; cbn [is_nil]; [apply rrel_ret; exact Hf|].
+      assert (Hvs : Forall2 vrel (a1 :: t1) (a2 :: t2)) by (constructor; auto).
+      destruct Hf as [z|z|z|s|c ws1 ws2 Hw|fs1 fs2 Hfs|r1 r2 cs1 cs2 f k kfv Hnd Hcs Hkfv Hin Henv|g1 g2 b1 b2 Hg Hb|h];
+        try apply rrel_stuck.
+      * (* closures *)
+        destruct (vo_clos_find _ _ _ _ Hcs Hnd f Hin) as (ps & body1 & body2 & k' & F1 & F2 & Hvo).
+        rewrite F1, F2. destruct (is_nil ps); [apply rrel_stuck|].
+        rewrite <- (Forall2_length' _ _ _ _ _ Hvs).
+        destruct (Nat.ltb (length (a1 :: t1)) (length ps)) eqn:LT.
+        -- apply rrel_ret. constructor; [|exact Hvs]. econstructor; eauto.
+        -- apply Nat.ltb_ge in LT. eapply rrel_bind.
+           ++ eapply (vo_sound_ap _ _ _ _ IHa IHf (force_pure n) (force_data n)); [exact Hvo|].
+              apply erel_app; [apply Forall2_combine_brel, Forall2_firstn; exact Hvs|].
+              rewrite map_fst_combine by (rewrite firstn_length; lia).
+              eapply erel_sub; [|eapply group_env_rel; eauto].
+              intros x Hx. eapply find_clo_fv; eauto.
+           ++ intros w1 w2 Hw. apply IHa; [exact Hw|]. apply Forall2_skipn. exact Hvs.
+      * (* partial applications *)
+        apply IHa; [exact Hg|]. apply Forall2_app; assumption.
+      * (* host functions *)
+        eapply rrel_bind; [apply host_call_rel; exact Ha|]. intros w1 w2 Hw. apply IHa; assumption.
+    + intros v1 v2 Hv. rewrite !force_eq.
+      destruct Hv as [z|z|z|s|c ws1 ws2 Hw|fs1 fs2 Hfs|r1 r2 cs1 cs2 f k kfv Hnd Hcs Hkfv Hin Henv|g1 g2 b1 b2 Hg Hb|h];
+        try (apply rrel_ret; constructor; assumption).
+      destruct (vo_clos_find _ _ _ _ Hcs Hnd f Hin) as (ps & body1 & body2 & k' & F1 & F2 & Hvo).
+      rewrite F1, F2. destruct ps as [|p0 ps]; [|apply rrel_ret; econstructor; eauto].
+      assert (Hs : rrel vrel (ev (apply n) (force n) (bind_group r1 cs1) body1)
+                             (ev (apply n) (force n) (bind_group r2 cs2) body2)).
+      { eapply (vo_sound_ap _ _ _ _ IHa IHf (force_pure n) (force_data n)); [exact Hvo|].
+        eapply erel_sub; [|eapply group_env_rel; eauto].
+        intros x Hx. eapply find_clo_fv; [exact F2|]. rewrite remove_all_nil. exact Hx. }
+      destruct (ev (apply n) (force n) (bind_group r1 cs1) body1) as [[w1|e|] l1]; cbn [rrel] in Hs.
+      * destruct Hs as (w2 & -> & Hw). cbn. exists w2. auto.
+      * apply rrel_stuck.
+      * exact I.
+Qed.
+
+Lemma apply_sound : forall n, apply_ok (apply n) (apply n).
+Proof. intros n. apply apply_force_sound. Qed.
+Lemma force_sound : forall n, force_ok (force n) (force n).
+Proof. intros n. apply apply_force_sound. Qed.
+
+(* a droppable expression: empty log; a value, EArith or EStuck -- or out of fuel, which only
+   happens where a recursive value has to be unfolded *)
+Theorem droppable_pure : forall e n r o l,
+  droppable e = true -> eval n r e = (o, l) ->
+  l = [] /\ ((exists v, o = Val v) \/ o = Err EArith \/ o = Err EStuck \/ o = OOF).
+Proof.
+  intros e n r o l Hd He. unfold Core.eval in He.
+  destruct (droppable_pure_all e (apply n) (force n) r (force_pure n) Hd) as [H1 H2].
+  rewrite He in H1, H2. cbn [fst snd] in *.
+  split; auto. destruct o as [v|e0|]; [eauto | destruct H2; subst; auto | auto].
 Qed.
 
 (* ------------------------------------------------------------------------------------------ *)
@@ -1288,7 +1444,7 @@ Theorem valid_opt_sound : forall a b, valid_opt a b = true ->
   forall n r1 r2, erel (fv b) r1 r2 -> rrel vrel (eval n r1 a) (eval n r2 b).
 Proof.
   intros a b H n r1 r2 He. unfold Core.eval, valid_opt in *.
-  eapply vo_sound_ap; [apply apply_sound|exact H|exact He].
+  eapply vo_sound_ap; [apply apply_sound|apply force_sound|apply force_pure|apply force_data|exact H|exact He].
 Qed.
 
 
